@@ -2558,7 +2558,8 @@ class TextQueryBackend(Backend):
             and self.correlation_search_single_rule_expression is not None
         ):
             return self.correlation_search_single_rule_expression.format(
-                rule=rule_reference,
+                rule=rule_reference.rule,
+                ruleid=rule_reference.rule.name or rule_reference.rule.id,
                 query=queries[0],
                 normalization=self.convert_correlation_search_field_normalization_expression(
                     rule.aliases, rule_reference
